@@ -168,6 +168,10 @@ def date_spellings():
             yield ('2015-10-21T%s%s' % (t, {'GMT': 'Z', '': ''}.get(z, z))).strip().encode('ascii')
     for y in ('15', '69', '70', '99', '00', '0015', '10000', '9999', '0001'):
         yield ('Wed, 21 Oct %s 07:28:00 GMT' % y).encode('ascii')
+    for y in ('0001', '0002', '0069', '0099', '0100', '0999', '1000'):      # layouts that can name the years below 1000
+        yield ('%s0101' % y).encode('ascii')
+        yield ('%s-01-01T00:00:00Z' % y).encode('ascii')
+        yield ('%s-01-01 00:00:00 +0100' % y).encode('ascii')
 
 
 def txt_partitions():
